@@ -134,11 +134,18 @@ def main():
         pays = []
         for ident in msm:
             for r in range(3 if thorough else 1):
-                b = gen.build(tabs, ident, rng, maskmode=rng.choice([None, "full", "last", "empty", "reserved"]), label=1)
+                b = gen.build(tabs, ident, rng, maskmode=rng.choice([None, "full", "last", "empty", "reserved"] + gen.MSM_SHAPES), label=1)
                 if b is None or len(b.payload) > 1023:
                     b = gen.build(tabs, ident, rng, mode="zeros", maskmode="last")
                 if b is not None and len(b.payload) <= 1023:
                     pays.append((b.ident, b.payload))
+        # the widest indices: exactly 64 satellites, exactly 64 cells, more than 64 cells, 63 (one below)
+        for ident in rng.sample(msm, 8 if thorough else 4):
+            for sh in (("shape", 64, 1, 64, 1), ("shape", 8, 8, 64, 1), ("shape", 63, 1, 63, 0), ("shape", 11, 6, 66, 1)):
+                b = gen.build(tabs, ident, rng, maskmode=sh, label=1)
+                if b is not None and len(b.payload) <= 1023:
+                    pays.append((b.ident, b.payload))
+                    em.count("msm.shape.%dx%dx%d" % sh[1:4])
         # helper state across calls: for every MSM type an EMPTY message (no satellites) first, then a populated one, then empty again
         seqs = []
         for ident in msm:
